@@ -65,6 +65,7 @@ type GenesisKnobs struct {
 	Eth1Share        int  // percent with ETH1 credentials
 	AboveShare       int  // percent with balance above max
 	BelowShare       int  // percent below max (inactive at genesis)
+	SameMultiset     bool // exactly 16 or 32 validators, all at the maximum (with AllMax)
 	ExactActive      int  // exactly this many validators at/above the maximum (active at genesis); a few inactive ones on top
 }
 
@@ -84,6 +85,9 @@ func MakeGenesisPlan(r *hx.Rng, sp *common.Spec, k GenesisKnobs) *GenesisPlan {
 	}
 	if k.ExactActive > 0 {
 		n = k.ExactActive + r.Intn(4)
+	}
+	if k.SameMultiset {
+		n = pick(r, 16, 32, 32)
 	}
 	p := &GenesisPlan{ViaEth1: r.Chance(50)}
 	copy(p.Eth1Hash[:], r.Bytes(32))
